@@ -65,7 +65,7 @@ func (e *ExtensionObject) Decode(b []byte) (int, error) {
 	// an empty body is still a value of its type if the type has an
 	// empty encoding, e.g. a structure without fields
 	if length == 0 {
-		if e.EncodingMask == ExtensionObjectBinary {
+		if e.EncodingMask != ExtensionObjectXML {
 			if v := eotypes.New(e.TypeID.NodeID); v != nil {
 				if _, err := Decode(nil, v); err == nil {
 					e.Value = v
